@@ -507,7 +507,10 @@ Fixpoint l_attrs (l : list (qname * option str)) : list (qname * str) + perr :=
       match v with
       | None => inr PyTypeError
       | Some t =>
-          if l_qname_ok q && l_text_ok t then
+          (* an unqualified attribute called xmlns is printed by libxml2 as a namespace
+             declaration: outside "the serialiser prints the tree it was given" *)
+          if l_qname_ok q && l_text_ok t
+             && negb (match fst q with None => str_eqb (snd q) s_xmlns | Some _ => false end) then
             match l_attrs r with inl ats => inl ((q, t) :: ats) | inr e => inr e end
           else inr SinkUnmodelled
       end
